@@ -57,6 +57,9 @@ pub enum Mutation {
     Reload,
     /// (engine scenarios) replace the resources by the listed subset of the world's resources
     UseResources(Vec<usize>),
+    /// several state changes in a row with no query in between (e.g. all tags off, then some on again:
+    /// the second rebuild reuses what the first one freed)
+    Seq(Vec<Mutation>),
 }
 
 #[derive(Clone, Debug, Serialize, Deserialize)]
@@ -100,8 +103,8 @@ fn profile() -> Profile {
     Profile {
         n_rules: (8, 50),
         n_probes: (8, 14),
-        p_tag: 30,
-        p_regexish: 75,
+        p_tag: 55,
+        p_regexish: 80,
         cosmetic: true,
         removeparam: true,
         redirect: true,
@@ -122,8 +125,8 @@ pub fn generate(seed: u64) -> Scenario {
     let mut r = Rng::stream(seed, "c19");
     let blocker = r.chance(40);
     let n_phases = match r.below(10) {
-        0..=4 => 1,
-        5..=7 => 2,
+        0..=2 => 1,
+        3..=6 => 2,
         _ => 3,
     };
     let mut phases = vec![];
@@ -160,6 +163,12 @@ pub fn generate(seed: u64) -> Scenario {
         let subset = |r: &mut Rng| -> Vec<String> { w.tags.iter().filter(|_| r.chance(50)).cloned().collect() };
         let then = if pi + 1 == n_phases {
             Mutation::None
+        } else if r.chance(50) {
+            let mut v = vec![if r.chance(60) { Mutation::UseTags(vec![]) } else { Mutation::DisableTags(subset(&mut r)) }];
+            for _ in 0..r.range(1, 2) {
+                v.push(if r.chance(50) { Mutation::UseTags(subset(&mut r)) } else { Mutation::EnableTags(subset(&mut r)) });
+            }
+            Mutation::Seq(v)
         } else {
             match r.below(8) {
                 0..=3 => Mutation::UseTags(subset(&mut r)),
@@ -178,8 +187,8 @@ pub fn generate(seed: u64) -> Scenario {
         phases.push(Phase { threads, then });
     }
     let tags: Vec<String> = w.tags.iter().filter(|_| r.chance(50)).cloned().collect();
-    let rwlock = r.chance(35);
-    let second_threads: Vec<Vec<Q>> = if r.chance(25) {
+    let rwlock = r.chance(35) && std::env::var("ADSIM_C19_NORW").is_err();
+    let second_threads: Vec<Vec<Q>> = if r.chance(25) && std::env::var("ADSIM_C19_NO2ND").is_err() {
         (0..r.range(1, 2)).map(|_| (0..r.range(1, 4)).map(|_| Q::Net(r.below(w.probes.len()))).collect()).collect()
     } else {
         vec![]
@@ -267,6 +276,11 @@ fn mutate_sc(s: &mut Shared, m: &Mutation, sc: &Scenario) {
             let rs: Vec<ResSpec> = idx.iter().filter_map(|i| sc.world.resources.get(*i).cloned()).collect();
             e.use_resources(rs.iter().map(to_resource));
         }
+        (s, Mutation::Seq(v)) => {
+            for m in v {
+                mutate_sc(s, m, sc);
+            }
+        }
         (s, m) => mutate(s, m),
     }
 }
@@ -283,7 +297,7 @@ fn mutate(s: &mut Shared, m: &Mutation) {
         (Shared::Blocker(b, _), Mutation::EnableTags(t)) => b.enable_tags(&tv(t).iter().map(|x| x.as_str()).collect::<Vec<_>>()),
         (Shared::Blocker(b, _), Mutation::DisableTags(t)) => b.disable_tags(&tv(t).iter().map(|x| x.as_str()).collect::<Vec<_>>()),
         (Shared::Blocker(b, _), Mutation::Optimize) => b.optimize(),
-        (_, Mutation::Reload) | (_, Mutation::UseResources(_)) => {}
+        (_, Mutation::Reload) | (_, Mutation::UseResources(_)) | (_, Mutation::Seq(_)) => {}
     })
 }
 
